@@ -67,3 +67,10 @@ claim("C11", "property-based testing: statistical differential vs volume-scaled 
       "(b) 12k / 200k generated growth/division scenarios for both volume models, with and without noise, including "
       "models whose total propensity is or becomes zero: prefix-of-grid, truncated => flagged, positivity, monotonicity, "
       "one-step band around V0 e^{gt}, predicted division step.", _TB, "DESIGN.md section 4 C11")
+
+claim("C10", "property-based testing: exact delivery accounting on instrumented delay networks + statistical differentials (Hypothesis)",
+      "30k / 300k seeded delay-SSA paths with firing and delivery counters: exact per-row accounting, exactly-once "
+      "delivery including the drained final queue, delivery-time sandwich for fixed delays, horizon-exceeding delays, "
+      "negative Gaussian draws; 200 / 2000 delay parameter sets x 20k / 80k py_get_delay draws vs scipy.stats (KS); "
+      "500 / 5000 networks for zero-delay and delay-unaware simulators vs the master equation of the net network.",
+      _TB, "DESIGN.md section 4 C10")
